@@ -11,14 +11,26 @@ correspond: random well-formed files of the grammar (`OSpec`, `JSpec`): the Lean
             format sniffing chain are compared per call.
 search    : the PROPERTY on the real code with an independent re-parse of the text (`parse_oscar`, `parse_jetscape`),
             `fractions`/`decimal` for nearest-double, PDGID (three_charge, is_valid) as the external parameter.
+paths     : one process opens many files; about half of them (correspondence and search) are written to a path that an
+            earlier, DIFFERENT file of this process used (`Paths`: pool slots, Oscar and JETSCAPE content alternating on
+            the `.dat` slots; `path_sequences`: targeted short sequences).  Every call into sparkx is recorded (`HISTORY`).
+            A failing file is first re-run ALONE in a new process: if it fails there it is an ordinary input; if not, the
+            failure needs the history — the history is delta-debugged in new processes (`shrink_sequence`), classified
+            (`path-reuse` if it disappears when every step gets its own path, else `process-state`) and reported as
+            `<key>:sequence:<class>` with the whole sequence of (path slot, file text) steps; `--replay` re-runs it.
 """
+import atexit
 import json
 import math
 import os
 import re
+import shutil
+import subprocess
+import sys
 import tempfile
 import time
 import warnings
+from concurrent.futures import ThreadPoolExecutor
 from fractions import Fraction
 
 import numpy as np
@@ -239,7 +251,8 @@ def gen_ospec(rng, fmt=None, cols=None, nev=None):
     fmt = fmt or rng.choice(["oscar2013", "extended", "extended", "ascii", "ascii"])
     if fmt == "oscar2013":
         cols = OSCAR2013_COLS
-        h2 = "# Units: fm fm fm fm GeV GeV GeV GeV GeV none none e"
+        h2 = rng.choice(["# Units: fm fm fm fm GeV GeV GeV GeV GeV none none e", "# Units: fm fm fm fm GeV GeV GeV GeV GeV none none e ",
+                         "# units fm GeV", "# Units: fm/c fm fm fm GeV/c^2 GeV GeV/c GeV/c GeV/c none none e"])
         ncol = lambda: 12
     elif fmt == "extended":
         hn = rng.choice([20, 22, 22])
@@ -261,7 +274,9 @@ def gen_ospec(rng, fmt=None, cols=None, nev=None):
         rc = EXT_COLS if fmt == "extended" else cols
         parts = [[gen_tok(rng, c) for c in rc[:ncol()]] for _ in range(m)]
         events.append(dict(label=lab, parts=parts, footer=foot, impact=b))
-    return OSpec(fmt, cols, events, h2=h2, h3=rng.choice(["# SMASH-3.1", "# SMASH-2.2", "# SMASH-3.0-12-gabcdef"]), nl=rng.random() < 0.85)
+    h3 = rng.choice(["# SMASH-3.1", "# SMASH-2.2", "# SMASH-3.0-12-gabcdef", "# SMASH-%d.%d" % (rng.randint(1, 3), rng.randint(0, 9)),
+                     "# SMASH-3.1-%d-g%06x" % (rng.randint(1, 99), rng.randrange(16 ** 6))])
+    return OSpec(fmt, cols, events, h2=h2, h3=h3, nl=rng.random() < 0.85)
 
 
 def gen_momentum(rng):
@@ -292,9 +307,27 @@ def gen_jspec(rng, partons=None, nev=None):
             pdg = rng.choice(PDG_POOL)
             parts.append([str(j if rng.random() < 0.7 else rng.randint(0, 9999)), str(pdg), gen_int_tok(rng, "status")] + gen_momentum(rng))
         events.append(dict(label=i + 1, parts=parts, header=jet_header(partons, sep, i + 1, m)))
-    sigma = rng.choice([("0.000314633", "6.06164e-07"), ("0.0", "0.0"), ("1.5", "2"), ("3e-4", "1E-6"), ("12", "0.5")])
+    sigma = gen_sigma(rng)
     tsep = rng.choice(["\t", "\t", " "])
-    return JSpec(partons, events, tsep.join(["#", "sigmaGen", sigma[0], "sigmaErr", sigma[1]]), sigma, nl=rng.random() < 0.6)
+    h1 = rng.choice(["#\tJETSCAPE_FINAL_STATE\tv2\t|\tN\tpid\tstatus\tE\tPx\tPy\tPz", "#\tJETSCAPE_FINAL_STATE\tv2\t|\tN\tpid\tstatus\tE\tPx\tPy\tPz",
+                     "# JETSCAPE_FINAL_STATE v2 | N pid status E Px Py Pz", "#\tJETSCAPE_FINAL_STATE\tv%d\t|\tN\tpid\tstatus\tE\tPx\tPy\tPz" % rng.randint(1, 9),
+                     "#\tJETSCAPE_FINAL_STATE\tv2\t|\tN\tpid\tstatus\tE\tPx\tPy\tPz\tEta\tPhi"])
+    return JSpec(partons, events, tsep.join(["#", "sigmaGen", sigma[0], "sigmaErr", sigma[1]]), sigma, h1=h1, nl=rng.random() < 0.6)
+
+
+def gen_sigma(rng):
+    """(sigmaGen, sigmaErr) tokens; practically never the same pair twice"""
+    if rng.random() < 0.15:
+        return rng.choice([("0.000314633", "6.06164e-07"), ("0.0", "0.0"), ("1.5", "2"), ("3e-4", "1E-6"), ("12", "0.5")])
+
+    def one():
+        r = rng.random()
+        if r < 0.4:
+            return "%.*f" % (rng.randint(1, 9), rng.uniform(0, 50))
+        if r < 0.8:
+            return "%.*e" % (rng.randint(1, 6), rng.uniform(1e-9, 1e3))
+        return "%d" % rng.randint(0, 999)
+    return (one(), one())
 
 
 # =================================================================================================== independent re-parse
@@ -434,13 +467,55 @@ def classify(e):
     return "err other:" + type(e).__name__
 
 
-def open_real(kind, text):
+class Paths:
+    """Input paths of this process.  A *slot* is a symbolic file name (`P1.dat`, `Q0.oscar`, `f17.dat`): the same slot is the
+    same path string on disk.  Pool slots (`P*`, `Q*`) are re-used by later, different files — an Oscar file may sit on a `.dat`
+    slot that held a JETSCAPE file before and vice versa; `f*` slots are used once.  Anything the code remembers per path (or
+    per class / per process) from an earlier file therefore shows as a failure of a later, well-formed file."""
+    POOL_DAT = ["P0.dat", "P1.dat", "P2.dat"]
+    POOL_OSCAR = ["Q0.oscar", "Q1.oscar"]
+
+    def __init__(self):
+        self.dir = None
+        self.n = 0
+
+    def root(self):
+        if self.dir is None:
+            self.dir = tempfile.mkdtemp(prefix="verif_c01_", dir=os.environ.get("VERIF_TMP", "/tmp"))
+            atexit.register(shutil.rmtree, self.dir, True)
+        return self.dir
+
+    def path(self, slot):
+        return os.path.join(self.root(), slot)
+
+    def fresh(self, kind):
+        self.n += 1
+        return "f%d%s" % (self.n, ".oscar" if kind == "oscar" else ".dat")
+
+    def pick(self, rng, kind, reuse=0.5):
+        """None (a path never used before) for about half of the cases, else a pool slot"""
+        if rng.random() >= reuse:
+            return None
+        return rng.choice(self.POOL_DAT + (self.POOL_OSCAR if kind == "oscar" else []))
+
+
+PATHS = Paths()
+# every call into sparkx made by this process, in order (what a failing input may depend on besides its own text)
+HISTORY = []
+
+
+def is_fresh(slot):
+    return slot.startswith("f")
+
+
+def open_real(kind, text, slot=None):
     from sparkx.Oscar import Oscar
     from sparkx.Jetscape import Jetscape
-    fd, path = tempfile.mkstemp(suffix=".oscar" if kind == "oscar" else ".dat", prefix="verif_c01_",
-                                dir=os.environ.get("VERIF_TMP", "/tmp"))
+    slot = slot or PATHS.fresh(kind)
+    path = PATHS.path(slot)
+    HISTORY.append(dict(op="open", slot=slot, kind=kind, text=text))
     try:
-        with os.fdopen(fd, "w", newline="") as f:
+        with open(path, "w", newline="") as f:
             f.write(text)
         with np.errstate(all="ignore"):
             if kind == "oscar":
@@ -451,7 +526,8 @@ def open_real(kind, text):
     except Exception as e:
         return None, e
     finally:
-        os.unlink(path)
+        if is_fresh(slot) and os.path.exists(path):
+            os.unlink(path)
 
 
 def counts_repr(c):
@@ -541,10 +617,11 @@ def plist_real(kind, obj, P):
 
 
 # =================================================================================================== the property on the real code
-def check_file(kind, text, P=None):
-    """Returns a list of (key, what) — failures of the PROPERTY on the real code for this well-formed file."""
+def check_file(kind, text, P=None, slot=None):
+    """Returns a list of (key, what) — failures of the PROPERTY on the real code for this well-formed file
+    (written to the path of `slot`; a path not used before when `slot` is None)."""
     P = P or parse(kind, text)
-    obj, exc = open_real(kind, text)
+    obj, exc = open_real(kind, text, slot)
     tag = kind if kind != "oscar" else P["fmt"]
     # header lengths the format sniffing used to confuse with Oscar2013 / Oscar2013Extended get their own key
     otag = tag + (f"/ncols={len(P['cols'])}" if kind == "oscar" and P["fmt"] == "ascii" and len(P["cols"]) in (13, 21) else "")
@@ -717,10 +794,15 @@ def fields(ans):
     return parts[0], {p.split("=", 1)[0]: p.split("=", 1)[1] for p in parts[1:] if "=" in p}
 
 
-def corr_spec(ctx, spec, origin, text_real=None):
+def corr_spec(ctx, spec, origin, text_real=None, slot=None):
     """one file: returns the driver line and a closure comparing the answer"""
     text = spec.text() if text_real is None else text_real
     kind = spec.kind
+    if slot is not None:
+        origin = f"{origin}@{slot}"
+        ctx.count("path/re-used-slot")
+    else:
+        ctx.count("path/fresh")
 
     def compare(ans):
         head, F = fields(ans)
@@ -743,7 +825,7 @@ def corr_spec(ctx, spec, origin, text_real=None):
             ctx.brk("proof-broken", f"{origin}: theorem instance evaluates to false: read = {F['read'][:200]} abstract = {F['abs'][:200]}", case=case)
             return
         P = parse(kind, text)
-        obj, exc = open_real(kind, text)
+        obj, exc = open_real(kind, text, slot)
         real = classify(exc) if exc is not None else canon_real(kind, obj, P)
         nontriv = len(P["events"]) >= 2 and any(not e["rows"] for e in P["events"]) and any(e["rows"] for e in P["events"])
         ctx.case((origin.split("#")[0], text), nontriv or origin.startswith("ascii") or origin.startswith("gen"),
@@ -808,6 +890,7 @@ def corr_particle(ctx, rng):
     line = "\t".join(["particle", fmt, ",".join(attrs), ",".join(toks)])
 
     def compare(ans):
+        HISTORY.append(dict(op="particle", fmt=fmt, toks=toks, attrs=attrs))
         try:
             with np.errstate(all="ignore"):
                 p = Particle(fmt, np.asarray(toks), attrs) if fmt == "ASCII" else Particle(fmt, np.asarray(toks))
@@ -866,6 +949,7 @@ def corr_derived(ctx, rng):
     l2 = "\t".join(["mass", str(pdg)] + [f2h(v) for v in vals])
 
     def build():
+        HISTORY.append(dict(op="particle", fmt="JETSCAPE", toks=toks, attrs=[]))
         try:
             with np.errstate(all="ignore"):
                 return Particle("JETSCAPE", np.asarray(toks)), None
@@ -910,19 +994,7 @@ def corr_fmtchain(ctx, rng):
     line = "fmtchain\t" + ",".join(hexs(t) for t in toks)
 
     def compare(ans):
-        from sparkx.loader.OscarLoader import OscarLoader
-        fd, path = tempfile.mkstemp(suffix=".oscar", prefix="verif_c01f_", dir=os.environ.get("VERIF_TMP", "/tmp"))
-        with os.fdopen(fd, "w") as f:
-            f.write(" ".join(toks) + "\n# x\n")
-        try:
-            ld = OscarLoader(path)
-            try:
-                ld.set_oscar_format()
-                real = ld.oscar_format()
-            except TypeError:
-                real = "-"
-        finally:
-            os.unlink(path)
+        real = sniff_format(toks)
         head, F = fields(ans)
         ctx.case(("fmtchain", tuple(toks)), t0 == "#!ASCII")
         ctx.count(f"fmtchain/{real}")
@@ -930,6 +1002,26 @@ def corr_fmtchain(ctx, rng):
             ctx.brk("correspondence-broken", f"set_oscar_format on {toks[:3]}… ({len(toks)} tokens): code {real} vs generated chain / model {ans}",
                     case=dict(op="fmtchain", tokens=toks))
     return line, compare
+
+
+def sniff_format(toks, slot=None):
+    """OscarLoader.set_oscar_format alone on a first line made of `toks`"""
+    from sparkx.loader.OscarLoader import OscarLoader
+    slot = slot or PATHS.fresh("oscar")
+    path = PATHS.path(slot)
+    HISTORY.append(dict(op="sniff", slot=slot, toks=list(toks)))
+    with open(path, "w") as f:
+        f.write(" ".join(toks) + "\n# x\n")
+    try:
+        ld = OscarLoader(path)
+        try:
+            ld.set_oscar_format()
+            return ld.oscar_format()
+        except TypeError:
+            return "-"
+    finally:
+        if is_fresh(slot):
+            os.unlink(path)
 
 
 def ascii_headers(ctx, rng):
@@ -949,7 +1041,10 @@ def correspond(ctx):
                 "final newline; tokens plain/exponent/negative/integral/extreme; PDG codes known, unknown, quark, gluon, photon, "
                 "neutrino, diquark, nucleus) + files written by the eight GenerateFlow generators + per-call Particle / derived "
                 "charge / mass / format-chain cases; non-trivial = file with an empty and a non-empty event, or an ASCII / generator "
-                "file, or a multi-column ASCII particle, or a fractional charge; distinct by canonical input")
+                "file, or a multi-column ASCII particle, or a fractional charge; distinct by canonical input.  About half of the "
+                "files are written to a path used before in the same process by a DIFFERENT file (pool of 3 .dat + 2 .oscar slots; Oscar "
+                "and JETSCAPE content alternate on the .dat slots), plus targeted path sequences; generated files differ from each other "
+                "in header lines, format tag, sigmaGen pair, event count and footers")
     jobs = []
     for case in corpus():
         if case.get("spec"):
@@ -961,18 +1056,21 @@ def correspond(ctx):
         ctx.count(f"file/{tag}/events={len(spec.events)}")
         if spec.kind == "oscar" and spec.fmt == "ascii":
             ctx.count(f"ascii/ncols={len(spec.cols)}")
-        jobs.append(corr_spec(ctx, spec, f"{tag}#{i}"))
+        jobs.append(corr_spec(ctx, spec, f"{tag}#{i}", slot=PATHS.pick(rng, spec.kind)))
     for cols in ascii_headers(ctx, rng):
         spec = gen_ospec(rng, fmt="ascii", cols=cols, nev=rng.randint(1, 3))
         ctx.count(f"ascii/ncols={len(cols)}")
-        jobs.append(corr_spec(ctx, spec, f"ascii-header#{','.join(cols)}"))
+        jobs.append(corr_spec(ctx, spec, f"ascii-header#{','.join(cols)}", slot=PATHS.pick(rng, "oscar")))
     for name, extra in GENERATORS:
         for rep in range(ctx.n(1, 6)):
             nev, mult = rng.randint(1, 4), rng.randint(max(1, (extra[0] if extra else 1)), 12)
             kind, text, seed = generator_file_retry(ctx, rng, name, extra, nev, mult)
             spec = spec_of_parsed(kind, parse(kind, text))
             ctx.count(f"generator/{name}")
-            jobs.append(corr_spec(ctx, spec, f"gen:{name}#{nev},{mult},{seed}", text_real=text))
+            jobs.append(corr_spec(ctx, spec, f"gen:{name}#{nev},{mult},{seed}", text_real=text, slot=PATHS.pick(rng, kind)))
+    for k, seq in enumerate(path_sequences(rng)):
+        for j, (spec, slot) in enumerate(seq):
+            jobs.append(corr_spec(ctx, spec, f"pathseq{k}.{j}", slot=slot))
     for i in range(ctx.n(500, 8000)):
         jobs.append(corr_particle(ctx, rng))
     for i in range(ctx.n(250, 4000)):
@@ -986,16 +1084,228 @@ def correspond(ctx):
             break
 
 
+# =================================================================================================== sequences (state across opens)
+def variant(rng, spec, j):
+    """make `spec` differ from its neighbours in everything a per-path / per-class cache could remember"""
+    if spec.kind == "oscar":
+        spec.h3 = "# SMASH-%d.%d-seq%d" % (rng.randint(1, 3), j, rng.randint(0, 999))
+        for e in spec.events:
+            b = "%d.%03d" % (j + 1, rng.randint(0, 999))
+            e["footer"], e["impact"] = smash_footer(rng, e["label"], b)
+    else:
+        spec.sigma = ("%d.%03d" % (j + 1, rng.randint(0, 999)), "%de-0%d" % (rng.randint(1, 9), j + 1))
+        sep = "\t" if "\t" in spec.trailer else " "
+        spec.trailer = sep.join(["#", "sigmaGen", spec.sigma[0], "sigmaErr", spec.sigma[1]])
+    return spec
+
+
+def path_sequences(rng):
+    """short sequences aimed at state kept between opens: three different files of one family on ONE path; Oscar flavours
+    alternating on one path; Oscar and JETSCAPE content alternating on one `.dat` path; hadron and parton files on one path;
+    ASCII files with the same column SET in different orders (same path and different paths); the same text twice.
+    Each sequence uses its own slots (`S<k>…`), so nothing of the random pool interferes."""
+    out = []
+    k = [0]
+
+    def slot(sfx):
+        k[0] += 1
+        return "S%d%s" % (k[0], sfx)
+
+    def oscar(fmt, **kw):
+        return gen_ospec(rng, fmt=fmt, nev=rng.randint(1, 3), **kw)
+    fams = {"jetscape": lambda: gen_jspec(rng, partons=False, nev=rng.randint(1, 3)),
+            "jetscapeP": lambda: gen_jspec(rng, partons=True, nev=rng.randint(1, 3)),
+            "oscar2013": lambda: oscar("oscar2013"), "extended": lambda: oscar("extended"), "ascii": lambda: oscar("ascii")}
+    for name in fams:
+        sl = slot(".dat" if name.startswith("jetscape") or rng.random() < 0.5 else ".oscar")
+        out.append([(variant(rng, fams[name](), j), sl) for j in range(3)])
+    for names in (["oscar2013", "extended", "ascii"], ["jetscape", "oscar2013", "jetscapeP", "ascii"], ["jetscape", "jetscapeP", "jetscape"],
+                  ["extended", "jetscape", "extended"]):
+        sl = slot(".dat")
+        out.append([(variant(rng, fams[n](), j), sl) for j, n in enumerate(names)])
+    # same ASCII column set, other order
+    cols = rng.sample(EXT_COLS, rng.randint(3, 8))
+    perms = [cols, cols[::-1], rng.sample(cols, len(cols))]
+    sl = slot(".oscar")
+    out.append([(variant(rng, oscar("ascii", cols=c), j), sl) for j, c in enumerate(perms)])
+    out.append([(variant(rng, oscar("ascii", cols=c), j), None) for j, c in enumerate(perms)])
+    # the same file twice, then another one
+    sp = fams["jetscape"]()
+    sl = slot(".dat")
+    out.append([(sp, sl), (sp, sl), (variant(rng, fams["jetscape"](), 2), sl)])
+    return out
+
+
+def run_steps(steps):
+    """replay a history in THIS process; returns the property failures of the last step (an `open`)"""
+    from sparkx.Particle import Particle
+    last = []
+    for st in steps:
+        if st["op"] == "open":
+            try:
+                last = check_file(st["kind"], st["text"], slot=st["slot"])
+            except NotWellFormed:
+                last = []
+        elif st["op"] == "particle":
+            HISTORY.append(st)
+            try:
+                with np.errstate(all="ignore"):
+                    Particle(st["fmt"], np.asarray(st["toks"]), st["attrs"]) if st["fmt"] == "ASCII" else Particle(st["fmt"], np.asarray(st["toks"]))
+            except Exception:
+                pass
+        elif st["op"] == "sniff":
+            sniff_format(st["toks"], st["slot"])
+    return last
+
+
+def fresh_process_fails(steps, timeout=600):
+    """run `steps` in a NEW Python process (same tree under test); failures [(key, what)] of the last step, None if the run broke"""
+    fd, inp = tempfile.mkstemp(suffix=".json", prefix="verif_c01_seq_", dir=os.environ.get("VERIF_TMP", "/tmp"))
+    out = inp + ".out"
+    try:
+        with os.fdopen(fd, "w") as f:
+            json.dump(dict(property="C01", sequence=steps), f)
+        env = dict(os.environ, C01_SEQ_OUT=out)
+        subprocess.run([sys.executable, str(common.VERIF / "harness" / "main.py"), "C01", "--replay", inp], env=env,
+                       capture_output=True, text=True, timeout=timeout)
+        if not os.path.exists(out):
+            return None
+        return [tuple(x) for x in json.load(open(out))]
+    except Exception:
+        return None
+    finally:
+        for f in (inp, out):
+            if os.path.exists(f):
+                os.unlink(f)
+
+
+def fresh_many(cands, key):
+    """does `key` fail at the end of each candidate history, each in its own new process (run in parallel)"""
+    if not cands:
+        return []
+    with ThreadPoolExecutor(max_workers=min(12, len(cands))) as ex:
+        res = list(ex.map(fresh_process_fails, cands))
+    return [r is not None and any(k == key for k, _ in r) for r in res]
+
+
+def shrink_sequence(steps, key, max_trials=160):
+    """`steps[-1]` fails with `key` after `steps[:-1]` but not alone.  Returns a (locally) minimal history that still makes it
+    fail in a new process, or None when no history reproduces it there."""
+    last, pre = steps[-1], steps[:-1]
+    trials = [0]
+
+    def test(cands):
+        trials[0] += len(cands)
+        return fresh_many([c + [last] for c in cands], key)
+
+    starts = [[s for s in pre if s.get("slot") == last["slot"]],
+              [s for s in pre if s["op"] == "open" and s["kind"] == last["kind"]],
+              [s for s in pre if s["op"] == "open"], pre]
+    starts = [c for i, c in enumerate(starts) if c and c not in starts[:i]]
+    ok = test(starts)
+    cur = next((c for c, o in zip(starts, ok) if o), None)
+    if cur is None:
+        return None
+    n = 2
+    while len(cur) >= 2 and trials[0] < max_trials:
+        size = -(-len(cur) // n)
+        chunks = [cur[i:i + size] for i in range(0, len(cur), size)]
+        subsets = chunks if len(chunks) > 1 else []
+        compl = [[x for j, c in enumerate(chunks) if j != i for x in c] for i in range(len(chunks))] if len(chunks) > 2 else []
+        cands = (subsets + compl)[:24]
+        ok = test(cands)
+        hit = next((i for i, o in enumerate(ok) if o), None)
+        if hit is not None:
+            cur = cands[hit]
+            n = 2 if hit < len(subsets) else max(n - 1, 2)
+        elif n >= len(cur):
+            break
+        else:
+            n = min(2 * n, len(cur))
+    # smaller files inside the history: one event, at most one particle
+    for i in range(len(cur) + 1):
+        st = (cur + [last])[i]
+        if st["op"] != "open" or trials[0] >= max_trials:
+            continue
+        try:
+            sp = spec_of_parsed(st["kind"], parse(st["kind"], st["text"]))
+        except NotWellFormed:
+            continue
+        cands_sp = []
+        if len(sp.events) > 1:
+            cands_sp.append(clone(sp, [dict(sp.events[0])]))
+            ne = next((e for e in sp.events if e["parts"]), None)
+            if ne is not None:
+                cands_sp.append(clone(sp, [dict(ne, parts=ne["parts"][:1])]))
+        elif sp.events and len(sp.events[0]["parts"]) > 1:
+            cands_sp.append(clone(sp, [dict(sp.events[0], parts=sp.events[0]["parts"][:1])]))
+        for c in cands_sp:
+            st2 = dict(st, text=c.text())
+            full = (cur + [last])
+            full = full[:i] + [st2] + full[i + 1:]
+            trials[0] += 1
+            if fresh_many([full], key)[0]:
+                cur, last = full[:-1], full[-1]
+                break
+    return cur + [last]
+
+
+def renamed_fresh(steps):
+    """the same history with every path used only once"""
+    out = []
+    for i, st in enumerate(steps):
+        out.append(dict(st, slot="f9%03d%s" % (i, os.path.splitext(st["slot"])[1])) if "slot" in st else st)
+    return out
+
+
+def describe_sequence(steps):
+    d = []
+    for st in steps:
+        if st["op"] == "open":
+            d.append(f"open {st['kind']} file on path slot {st['slot']} ({len(st['text'])} bytes, first line {st['text'].splitlines()[0][:60]!r}, "
+                     f"last line {st['text'].splitlines()[-1][:60]!r})")
+        elif st["op"] == "particle":
+            d.append(f"Particle({st['fmt']!r}, {len(st['toks'])} tokens, attrs={st['attrs']})")
+        else:
+            d.append(f"set_oscar_format on first line {' '.join(st['toks'])[:60]!r} (slot {st['slot']})")
+    return d
+
+
 # =================================================================================================== search (oracle)
 def search(ctx, budget_s):
     rng = ctx.rng
     t0 = time.time()
     n = 0
     found = set()
+    nseq = [0]
 
-    def report(spec, fails, origin):
+    def report(spec, fails, origin, hist_len):
+        """`hist_len` = length of HISTORY right after the failing open (its last entry is that open)"""
         for key, what in fails:
-            if key in found or len(found) >= 8:
+            if key in found or len(found) >= 8 or any(f.startswith(key + ":sequence:") for f in found):
+                continue
+            step = dict(HISTORY[hist_len - 1])
+            alone = fresh_process_fails([dict(step, slot="f1" + os.path.splitext(step["slot"])[1])])
+            if alone is not None and not any(k == key for k, _ in alone):
+                # the file is read correctly by a new process: the failure needs what happened before in this one
+                if nseq[0] >= 2:
+                    continue
+                nseq[0] += 1
+                seq = shrink_sequence([dict(x) for x in HISTORY[:hist_len]], key)
+                if seq is None:
+                    found.add(key + ":sequence:not-reproduced")
+                    ctx.violation(key + ":sequence:not-reproduced", what + " — fails in the checking process but neither alone nor after "
+                                  "the recorded history in a new process", dict(input=spec.to_json(), text=spec.text(), origin=origin))
+                    continue
+                sym = "process-state" if fresh_many([renamed_fresh(seq)], key)[0] else "path-reuse"
+                w2 = [w for k, w in (fresh_process_fails(seq) or []) if k == key]
+                skey = f"{key}:sequence:{sym}"
+                found.add(skey)
+                ctx.violation(skey, (w2[0] if w2 else what) + f" — only after {len(seq) - 1} earlier step(s) in the same process "
+                              + ("(any paths)" if sym == "process-state" else "(an earlier, different file on the same path)")
+                              + "; the same file alone is read correctly",
+                              dict(sequence=seq, steps=describe_sequence(seq), text=seq[-1]["text"], origin=origin,
+                                   how_to_replay="./check C01 --replay <this file>  (runs the whole sequence in a new process)"))
                 continue
             found.add(key)
             small = spec
@@ -1008,33 +1318,42 @@ def search(ctx, budget_s):
             ctx.violation(key, what, dict(input=small.to_json(), text=small.text(), origin=origin,
                                           how_to_replay="./check C01 --replay <this file>"))
 
+    def run(spec, origin, slot=None):
+        fails = check_file(spec.kind, spec.text(), slot=slot)
+        hl = len(HISTORY)
+        ctx.case(("oracle", spec.text(), slot is not None), True)
+        ctx.count("oracle-path/" + ("re-used" if slot is not None else "fresh"))
+        if fails:
+            report(spec, fails, origin, hl)
+
     for case in corpus():
         if case.get("spec"):
-            spec = spec_from_json(case["spec"])
             n += 1
-            report(spec, check_file(spec.kind, spec.text()), "corpus")
+            run(spec_from_json(case["spec"]), "corpus")
     # the classes a random draw hits rarely go first
-    targeted = [gen_ospec(rng, fmt="ascii", cols=rng.sample(EXT_COLS, k), nev=2) for k in (13, 21, 13, 21)]
+    targeted = [(gen_ospec(rng, fmt="ascii", cols=rng.sample(EXT_COLS, k), nev=2), None) for k in (13, 21, 13, 21)]
     for pdg in (2203, -2203, 3133052, 1103, 2101, 1, 21, 22, 12, 99999999):
         e = [dict(label=1, parts=[["0", str(pdg), "0", "5.0", "1.0", "2.0", "3.0"]], header=jet_header(True, "\t", 1, 1))]
-        targeted.append(JSpec(True, e, "#\tsigmaGen\t0.1\tsigmaErr\t0.01", ("0.1", "0.01")))
+        targeted.append((JSpec(True, e, "#\tsigmaGen\t0.1\tsigmaErr\t0.01", ("0.1", "0.01")), None))
+    for seq in path_sequences(rng):
+        targeted += seq
     limit = 4000 if ctx.thorough else 500
     while n < limit and (time.time() - t0 < budget_s or n < len(targeted) + 40):
         if targeted:
-            spec, origin = targeted.pop(0), "targeted"
+            (spec, slot), origin = targeted.pop(0), "targeted"
         elif rng.random() < 0.08:
             name, extra = rng.choice(GENERATORS)
             nev, mult = rng.randint(1, 3), rng.randint(3, 8)
             kind, text, seed = generator_file_retry(ctx, rng, name, extra, nev, mult)
             spec, origin = spec_of_parsed(kind, parse(kind, text)), f"gen:{name}({nev},{mult},{seed})"
+            slot = PATHS.pick(rng, kind)
         else:
             spec, origin = (gen_jspec(rng) if rng.random() < 0.4 else gen_ospec(rng)), "random"
+            slot = PATHS.pick(rng, spec.kind)
         n += 1
-        fails = check_file(spec.kind, spec.text())
-        ctx.case(("oracle", spec.text()), True)
-        if fails:
-            report(spec, fails, origin)
+        run(spec, origin, slot)
     ctx.cov["oracle_cases"] = n
+    ctx.cov["history_steps"] = len(HISTORY)
     ctx.count("oracle", n)
 
 
@@ -1051,6 +1370,24 @@ def corpus():
 
 def replay(ctx, path):
     d = json.loads(open(path).read())
+    if d.get("sequence"):
+        # a history: every step in order, in this (new) process; the verdict is about the last open
+        fails = run_steps(d["sequence"])
+        if os.environ.get("C01_SEQ_OUT"):
+            with open(os.environ["C01_SEQ_OUT"], "w") as f:
+                json.dump(fails, f)
+            return 0
+        base = (d.get("key") or "").split(":sequence:")[0]
+        for line in describe_sequence(d["sequence"]):
+            print("[C01] step:", line)
+        hit = [(k, w) for k, w in fails if not base or k == base]
+        if hit:
+            print(f"VIOLATION property=C01 replay={path}")
+            for k, w in hit:
+                print(f"  [{k}] after the steps above: {w}")
+            return 1
+        print("[C01] replay: the last file of the sequence is read correctly now")
+        return 0
     inp = d.get("input")
     if not inp:
         print(f"[C01] replay file names a broken obligation, not an input: {d.get('broken')}")
